@@ -279,6 +279,10 @@ func (n *gnode) advance() {
 		}
 		n.resetModel(svc.VerifRound())
 		k.Event("initiate-round", "n%d round=%d", n.id, svc.VerifRound())
+		// a round starts from the finalised head of the block state (votes are measured against it)
+		if h := svc.VerifHead().Hash(); h != n.finHead() {
+			k.Violate("C21", "round-base", "round-started-from-a-stale-finalised-head", "node %d starts round %d from %s, its block state's finalised head is %s", n.id, svc.VerifRound(), cu.Short(h), cu.Short(n.finHead()))
+		}
 		n.phase = 1
 	case 1:
 		done, err := svc.VerifCheckRoundCompletable()
